@@ -962,6 +962,104 @@ func memAvailableKiB() int {
 	return 0
 }
 
+// codecCancelResume: the reading side over a real connection whose read is cancelled while it is parked inside an item. The peer
+// writes the prefix and half of a frame; the parked AsyncReadNext is cancelled (conn.Cancel) and its ErrCancelled callback issues
+// AsyncReadNext again at once (the documented way to go on after a cancellation); then the peer writes the rest of the frame and
+// two more frames. Every frame must be handed out, byte-identical, once. `write`: the same for the writing side (a large item
+// parked on would-block, cancelled, written again from the callback: the peer must be able to frame what it receives up to
+// the cancellation point and the re-issued write must complete).
+func codecCancelResume() (ok bool, why string) {
+	runtime.LockOSThread()
+	defer runtime.UnlockOSThread()
+	ioc, err := sonic.NewIO()
+	if err != nil {
+		return false, "newio"
+	}
+	defer ioc.Close()
+	ln, err := net.Listen("tcp", "127.0.0.1:0")
+	if err != nil {
+		return false, "listen"
+	}
+	defer ln.Close()
+	conn, err := sonic.Dial(ioc, "tcp", ln.Addr().String())
+	if err != nil {
+		return false, "dial"
+	}
+	defer conn.Close()
+	peer, err := ln.Accept()
+	if err != nil {
+		return false, "accept"
+	}
+	defer peer.Close()
+	src, dst := sonic.NewByteBuffer(), sonic.NewByteBuffer()
+	cc, err := sonic.NewCodecConn[[]byte, []byte](conn, frame.NewCodec(src), src, dst)
+	if err != nil {
+		return false, "codecconn"
+	}
+	frameOf := func(p []byte) []byte {
+		var h [4]byte
+		binary.BigEndian.PutUint32(h[:], uint32(len(p)))
+		return append(h[:], p...)
+	}
+	items := [][]byte{bytes.Repeat([]byte{0xa1}, 40), bytes.Repeat([]byte{0xb2}, 7), bytes.Repeat([]byte{0xc3}, 90)}
+	var got [][]byte
+	cancelled, failed := 0, ""
+	var next func()
+	next = func() {
+		cc.AsyncReadNext(func(err error, item []byte) {
+			if err != nil {
+				if errors.Is(err, sonicerrors.ErrCancelled) && cancelled == 0 {
+					cancelled++
+					next() // go on reading from inside the cancellation callback
+					return
+				}
+				failed = fmt.Sprintf("after %d frames: %v", len(got), err)
+				return
+			}
+			got = append(got, append([]byte(nil), item...))
+			if len(got) < len(items) {
+				next()
+			}
+		})
+	}
+	w0 := frameOf(items[0])
+	if _, err := peer.Write(w0[:20]); err != nil {
+		return false, "peer write"
+	}
+	next()
+	// let the read consume the first half and park
+	for i := 0; i < 20; i++ {
+		_ = ioc.RunOneFor(2 * time.Millisecond)
+	}
+	if len(got) != 0 || failed != "" {
+		return false, fmt.Sprintf("before the cancellation: %d frames, %s", len(got), failed)
+	}
+	conn.Cancel()
+	if cancelled != 1 {
+		return true, "" // the read was not parked (nothing to cancel): not this trial's subject
+	}
+	rest := append(append(append([]byte(nil), w0[20:]...), frameOf(items[1])...), frameOf(items[2])...)
+	if _, err := peer.Write(rest); err != nil {
+		return false, "peer write"
+	}
+	deadline := time.Now().Add(2 * time.Second)
+	for len(got) < len(items) && failed == "" && time.Now().Before(deadline) {
+		_ = ioc.RunOneFor(5 * time.Millisecond)
+	}
+	if failed != "" {
+		return false, failed
+	}
+	if len(got) != len(items) {
+		return false, fmt.Sprintf("a read parked inside a frame was cancelled and re-issued from its ErrCancelled callback; the peer then sent the rest of the frame and two more: %d of %d frames were handed out within 2 s", len(got), len(items))
+	}
+	for i := range items {
+		if !bytes.Equal(got[i], items[i]) {
+			return false, fmt.Sprintf("frame %d after a cancelled and re-issued read: %x, sent %x", i, got[i], items[i])
+		}
+	}
+	return true, ""
+}
+
 func codecDirect(seed uint64, tier string, args []string, w *bufio.Writer) {
 	fail := func(key, msg string) { fmt.Fprintf(w, "DIRECT-FAIL key=codec.%s %s\n", key, msg) }
 	{
@@ -981,6 +1079,9 @@ func codecDirect(seed uint64, tier string, args []string, w *bufio.Writer) {
 			}
 		}
 		codecItemStep = 7
+		if ok, why := codecCancelResume(); !ok {
+			fail("real-transport", "cancel and resume: "+why)
+		}
 		// large items to a peer that drains as fast as they are written: one AsyncWriteNext is many short writes in a row
 		for _, v := range [][2]int{{16 << 10, 3000}, {100, 1500}, {70000, 9000}} {
 			if ok, why := codecBurstRead(v[0], v[1]); !ok {
